@@ -209,7 +209,9 @@ def pack_standard(evs):
                         nodup=len(set(e["ids"])) == len(e["ids"]),
                         perm=bool(e["indices_perm"]),
                         in_bounds=bool(e.get("in_bounds", True)), prior_finite=bool(e.get("prior_finite", True)),
-                        logP_ok=bool(e.get("logP_ok", True)), logL_ok=bool(e.get("logL_ok", True)))
+                        logP_ok=bool(e.get("logP_ok", True)), logL_ok=bool(e.get("logL_ok", True)),
+                        in_contour=bool(e.get("in_contour", True)),
+                        contour_checked=bool(e.get("contour_checked", False)))
         elif ev == "ll_outside":
             base["n"] = int(e["n"])
         elif ev == "kill":
